@@ -63,6 +63,9 @@ type runHooks struct {
 	kfOpen        map[string]bool
 	concrete      map[string]string // concrete-mode nondet values (validation)
 	observeLog    []string
+	c18notes      map[string]int    // C18: what was written where (diagnostics)
+	c18reads      map[string]bool   // C18: global state read outside any mutex
+	c18writes     map[string]string // C18: global state written -> lock context
 }
 
 func (ex *Exec) assume(c *Term) {
@@ -365,6 +368,9 @@ func (ex *Exec) assertOblN(c *Term, id string, kfs []string, regions []*Term) {
 	if vd == Sat && ex.hooks.concrete != nil {
 		return // concrete mode: record and go on, like the native harness does
 	}
+	if vd == Sat && ex.oblNoAssume {
+		return // event obligations (C18): the access happened; record it and go on
+	}
 	if vd == Sat {
 		// continue the path under the assumption that the assertion holds (find independent violations)
 		if c.IsConst() {
@@ -432,4 +438,11 @@ func modelString(m map[string]string) string {
 		fmt.Fprintf(&sb, "%s=%s ", k, m[k])
 	}
 	return sb.String()
+}
+
+func (h *runHooks) noteC18(s string) {
+	if h.c18notes == nil {
+		h.c18notes = map[string]int{}
+	}
+	h.c18notes[s]++
 }
